@@ -43,6 +43,8 @@ def make_batch(r, words):
     x = r.random()
     if x < 0.12:
         b['crash'] = 'so' if (lang == 'groovy' and r.random() < 0.4) else 'trace'
+        if b['crash'] == 'trace':
+            b['crash_pos'] = r.choice([None, None, 'after', 'after', 'before', 'middle'])
     elif x < 0.3 and lang in ('java', 'kotlin'):
         msgs = [m for ms in truth.values() for m in ms]
         if msgs:
@@ -66,7 +68,8 @@ def judge_batch(b, text, C):
     out = []
     if b['crash']:
         if not comp.crash_msg:
-            out.append(('crash-not-detected', '%s|%s' % (lang, b['crash']),
+            out.append(('crash-not-detected', '%s|%s%s' % (
+                lang, b['crash'], '|with-diagnostics' if b.get('crash_pos') else ''),
                         'output with a compiler-internal stack trace was not classified as a '
                         'crash (%s)' % lang))
         elif failed:
@@ -135,7 +138,8 @@ class C14:
                            'real-javac leg'],
                   'simulated': ['compiler output (scripted peer)', 'PRNG'],
                   'stub': ['kotlinc, groovyc, scalac (absent from the image)']}
-    PROBES = ('java', 'kotlin', 'groovy', 'scala', 'crash', 'crash_so', 'filter',
+    PROBES = ('java', 'kotlin', 'groovy', 'scala', 'crash', 'crash_so', 'crash_amid_diagnostics',
+              'filter',
               'several_filters', 'noise',
               'interleave', 'many_errors_one_file', 'real_javac_batch', 'real_javac_errors')
     tiers = {'quick': {'runs': 260, 'wall_s': 100, 'run_timeout_s': 300},
@@ -161,10 +165,11 @@ class C14:
             order = list(b['truth'].items())
             rr.shuffle(order)
             text = simcompiler.render(b['lang'], order, rr, noise=b['noise'], crash=b['crash'],
-                                      interleave=b['interleave'])
+                                      interleave=b['interleave'], crash_pos=b.get('crash_pos'))
             n += 1
             probes[b['lang']] = probes.get(b['lang'], 0) + 1
             for key, flag in (('crash', b['crash']), ('crash_so', b['crash'] == 'so'),
+                              ('crash_amid_diagnostics', b.get('crash_pos')),
                               ('filter', b['filter']),
                               ('several_filters', b['filter'] and len(b['filter']) > 1),
                               ('noise', b['noise']),
